@@ -41,9 +41,8 @@ def opOk (ord : Bool) : BinOp → Bool
     `isFirst` / `isLast` only), so the fragment does not read variables of such names. -/
 def isHelper (k : Bytes) : Bool := sIndexSuffix.isSuffixOf k || sLastIndexSuffix.isSuffixOf k
 
-/-- the scalar operator fragment, with (`ord = true`) or without the four ordering comparisons.  `coll` names
-    the variables that may hold a collection (a list, a map): the fragment does not read those as scalars
-    (they are what a {foreach} ranges over / a {call} passes as data, Props/C02Spec.lean). -/
+mutual
+/-- the expression fragment, with (`ord = true`) or without the four ordering comparisons -/
 def fragO (ord : Bool) : Expr → Bool
   | .null _ => true
   | .bool _ _ => true
@@ -51,12 +50,19 @@ def fragO (ord : Bool) : Expr → Bool
   | .float _ _ => true
   | .str _ _ _ => true
   | .global _ _ => true
-  | .dataRef _ key .nil => key != sIj && !isHelper key
+  | .dataRef _ key acc => key != sIj && !isHelper key && accFrag ord acc
   | .not _ a => fragO ord a
   | .neg _ a => fragO ord a
   | .bin op _ a b => opOk ord op && fragO ord a && fragO ord b
   | .tern _ c a b => fragO ord c && fragO ord a && fragO ord b
   | _ => false
+/-- access chains: `.k`, `.N`, `[e]` and the null-safe forms, the key expressions in the fragment -/
+def accFrag (ord : Bool) : AccessList → Bool
+  | .nil => true
+  | .cons (.key _ _ _) r => accFrag ord r
+  | .cons (.index _ _ _) r => accFrag ord r
+  | .cons (.expr _ _ e) r => fragO ord e && accFrag ord r
+end
 
 /-- the fragment without `< > <= >=` (no hypothesis about the soft-float needed) -/
 def frag (e : Expr) : Bool := fragO false e
@@ -81,6 +87,31 @@ theorem bind_val {α β : Type} {o : Out α} {f : α → Out β} {b : β} (h : o
 theorem bind_err {α β : Type} {o : Out α} {f : α → Out β} (h : o.bind f = .error) :
     o = .error ∨ ∃ a, o = .val a ∧ f a = .error := by
   cases o <;> simp [Spec.Eval.Out.bind] at h ⊢; exact h
+
+/-- one access step, then the rest of the chain -/
+theorem step_cont {m : EEnv} {s : Spec.Eval.Env} (rest : AccessList) {ms : AStep} {ss : Spec.Eval.Step}
+    (hs : StepAgree ms ss) (n : Nat)
+    (ih : ∀ (ref : Value) (n : Nat),
+      (∀ v, Spec.Eval.evalAcc s rest (absV ref) = .val v → ∃ mv n', evalAccesses m rest ref n = .ok mv n' ∧ absV mv = v) ∧
+      (Spec.Eval.evalAcc s rest (absV ref) = .error → evalAccesses m rest ref n = .err)) :
+    (∀ v, (match ss with | .next v => Spec.Eval.evalAcc s rest v | .stop o => o) = .val v →
+      ∃ mv n', (match ms with | .cont v => evalAccesses m rest v n | .ret v => .ok v n | .err => .err) = .ok mv n' ∧ absV mv = v) ∧
+    ((match ss with | .next v => Spec.Eval.evalAcc s rest v | .stop o => o) = .error →
+      (match ms with | .cont v => evalAccesses m rest v n | .ret v => .ok v n | .err => .err) = .err) := by
+  cases ss with
+  | next v =>
+    obtain ⟨mv, rfl, rfl⟩ := hs
+    exact ih mv n
+  | stop o =>
+    cases o with
+    | val v =>
+      obtain ⟨mv, rfl, rfl⟩ := hs
+      exact ⟨fun v' h => by simp only [Out.val.injEq] at h; exact ⟨mv, n, rfl, h⟩, fun h => by simp at h⟩
+    | error =>
+      simp only [StepAgree] at hs
+      subst hs
+      exact ⟨fun v' h => by simp at h, fun _ => rfl⟩
+    | unspec => exact ⟨fun v' h => by simp at h, fun h => by simp at h⟩
 
 section
 variable {m : EEnv} {s : Spec.Eval.Env} (hr : EnvRel m s)
@@ -134,7 +165,8 @@ theorem strict_sim (op : BinOp) (p : Nat) (a b : Expr)
         · subst h; cases ma <;> simp [hmb]
         · cases ma <;> simp [hmb] <;> cases mb <;> simp_all
 
-/-- the model refines the specification on the scalar operator fragment -/
+mutual
+/-- the model refines the specification on the fragment -/
 theorem eval_refines_spec_ord (ord : Bool) (hord : ord = true → OrdExact) : (e : Expr) → fragO ord e = true → Sim m s e
   | .null _, _ => by intro n; simp [Spec.Eval.eval, evalE, absV, Scalar]
   | .bool _ b, _ => by intro n; simp [Spec.Eval.eval, evalE, absV, Scalar]
@@ -155,14 +187,15 @@ theorem eval_refines_spec_ord (ord : Bool) (hord : ord = true → OrdExact) : (e
     · rename_i hv
       rw [hv, hg]
       simp
-  | .dataRef _ key .nil, hf => by
+  | .dataRef _ key acc, hf => by
     intro n
     simp only [fragO, bne_iff_ne, ne_eq, Bool.and_eq_true, Bool.not_eq_true'] at hf
-    have h1 : (key == sIj) = false := by simpa using hf.1
+    have h1 : (key == sIj) = false := by simpa using hf.1.1
     have h2 : (key == Spec.Eval.sIj) = false := h1
     rw [Spec.Eval.eval, evalE]
-    simp only [h1, h2, Bool.false_eq_true, if_false, Spec.Eval.evalAcc, evalAccesses]
-    simp [hr.vars key hf.2]
+    simp only [h1, h2, Bool.false_eq_true, if_false]
+    rw [← hr.vars key hf.1.2]
+    exact acc_sim ord hord acc hf.2 (m.lookup key) n
   | .not _ a, hf => by
     intro n
     have ih := eval_refines_spec_ord ord hord a (by simpa [fragO] using hf) n
@@ -414,7 +447,59 @@ theorem eval_refines_spec_ord (ord : Bool) (hord : ord = true → OrdExact) : (e
   | .func .., hf => by simp [fragO] at hf
   | .list .., hf => by simp [fragO] at hf
   | .map .., hf => by simp [fragO] at hf
-  | .dataRef _ _ (.cons _ _), hf => by simp [fragO] at hf
+/-- an access chain on related bases -/
+theorem acc_sim (ord : Bool) (hord : ord = true → OrdExact) : (acc : AccessList) → accFrag ord acc = true →
+    ∀ (ref : Value) (n : Nat),
+      (∀ v, Spec.Eval.evalAcc s acc (absV ref) = .val v → ∃ mv n', evalAccesses m acc ref n = .ok mv n' ∧ absV mv = v) ∧
+      (Spec.Eval.evalAcc s acc (absV ref) = .error → evalAccesses m acc ref n = .err)
+  | .nil, _, ref, n => by
+    rw [Spec.Eval.evalAcc, evalAccesses]
+    exact ⟨fun v h => by simp only [Out.val.injEq] at h; exact ⟨ref, n, rfl, h⟩, fun h => by simp at h⟩
+  | .cons (.key _ ns k) rest, hf, ref, n => by
+    simp only [accFrag] at hf
+    rw [Spec.Eval.evalAcc.eq_def, evalAccesses]
+    simp only
+    exact step_cont rest (access_str ref ns k _) n (acc_sim ord hord rest hf)
+  | .cons (.index _ ns i) rest, hf, ref, n => by
+    simp only [accFrag] at hf
+    rw [Spec.Eval.evalAcc.eq_def, evalAccesses]
+    simp only
+    exact step_cont rest (access_int ref ns i _) n (acc_sim ord hord rest hf)
+  | .cons (.expr _ ns e) rest, hf, ref, n => by
+    simp only [accFrag, Bool.and_eq_true] at hf
+    have ihe := eval_refines_spec_ord ord hord e hf.1 n
+    have ihr := acc_sim ord hord rest hf.2
+    rw [Spec.Eval.evalAcc.eq_def, evalAccesses]
+    simp only
+    refine ⟨fun v hv => ?_, fun herr => ?_⟩
+    · obtain ⟨kv, hkv, hv⟩ := bind_val hv
+      obtain ⟨mk, n1, hmk, habs⟩ := ihe.1 kv hkv
+      rw [hmk]
+      subst habs
+      cases mk with
+      | int i => exact (step_cont rest (access_int ref ns i.toInt _) n1 ihr).1 v hv
+      | str k => simp only [str, Value.render, Value.toString]; exact (step_cont rest (access_str ref ns k _) n1 ihr).1 v hv
+      | undefined => simp [absV, Spec.Eval.access] at hv
+      | list _ _ => simp [absV, Spec.Eval.access] at hv
+      | map _ _ => simp [absV, Spec.Eval.access] at hv
+      | null => simp only [str, Value.render, Value.toString]; exact (step_cont rest (access_other ref ns _ _) n1 ihr).1 v hv
+      | bool b => simp only [str, Value.render, Value.toString]; exact (step_cont rest (access_other ref ns _ _) n1 ihr).1 v hv
+      | float f => simp only [str, Value.render, Value.toString]; exact (step_cont rest (access_other ref ns _ _) n1 ihr).1 v hv
+    · rcases bind_err herr with h | ⟨kv, hkv, herr⟩
+      · rw [ihe.2 h]
+      · obtain ⟨mk, n1, hmk, habs⟩ := ihe.1 kv hkv
+        rw [hmk]
+        subst habs
+        cases mk with
+        | int i => exact (step_cont rest (access_int ref ns i.toInt _) n1 ihr).2 herr
+        | str k => simp only [str, Value.render, Value.toString]; exact (step_cont rest (access_str ref ns k _) n1 ihr).2 herr
+        | undefined => simp [absV, Spec.Eval.access] at herr
+        | list _ _ => simp [absV, Spec.Eval.access] at herr
+        | map _ _ => simp [absV, Spec.Eval.access] at herr
+        | null => simp only [str, Value.render, Value.toString]; exact (step_cont rest (access_other ref ns _ _) n1 ihr).2 herr
+        | bool b => simp only [str, Value.render, Value.toString]; exact (step_cont rest (access_other ref ns _ _) n1 ihr).2 herr
+        | float f => simp only [str, Value.render, Value.toString]; exact (step_cont rest (access_other ref ns _ _) n1 ihr).2 herr
+end
 
 /-- the model refines the specification on the scalar operator fragment (no ordering comparisons, no
     hypothesis) -/
@@ -580,5 +665,40 @@ example : ∃ mv n', evalE m0 e1 7 = .ok mv n' ∧ absV mv = .str [108, 116] := 
 /-- ordering non-numbers is an error on both sides; `'a' - 1` is inside and is an error on both sides -/
 example : evalE m0 (.bin .sub 0 (.str 0 [] [97]) (.int 0 1)) 7 = .err :=
   (eval_refines_spec_partial rel0 _ (by decide) 7).2 (by rfl)
+
+/-! ### accesses: x = {a: [10, {b: 'B'}], n: null}
+
+    `$x.a[1].b` = 'B' (an access chain through a map, a list and a map); `$x.n?.q.r` … a null-safe hop on null
+    as the LAST access: `$x.n?.q` = null; `$x.a[0 + 1]?.b` with a computed index; `$x.zz.y` (an access on
+    undefined) and `$x.a.k` (a key on a list) are errors on both sides -/
+
+def vx : Value := .map 5 [([97], .list 6 [.int 10, .map 7 [([98], .str [66])]]), ([110], .null)]
+def m1 : EEnv := { lookup := fun k => if k == [120] then vx else .undefined, ij := none, globals := [] }
+def s1 : Spec.Eval.Env := { vars := [([120], absV vx)], loops := [], ij := none, globals := [] }
+
+theorem rel1 : EnvRel m1 s1 := by
+  refine ⟨fun k _ => ?_, fun k => ?_⟩
+  · by_cases h : k = [120]
+    · subst h; rfl
+    · have h' : ([120] == k) = false := by simpa using fun e => h e.symm
+      have h'' : (k == [120]) = false := by simpa using h
+      simp [m1, s1, Spec.Eval.Env.lookup, Spec.Eval.find, h', h, absV]
+  · simp [m1, s1, Frame.find, Spec.Eval.find]
+
+def xa1b : Expr := .dataRef 0 [120] (.cons (.key 0 false [97]) (.cons (.index 0 false 1) (.cons (.key 0 false [98]) .nil)))
+def xnq : Expr := .dataRef 0 [120] (.cons (.key 0 false [110]) (.cons (.key 0 true [113]) .nil))
+def xaeb : Expr := .dataRef 0 [120] (.cons (.key 0 false [97])
+  (.cons (.expr 0 false (.bin .add 0 (.int 0 0) (.int 0 1))) (.cons (.key 0 true [98]) .nil)))
+
+example : ∃ mv n', evalE m1 xa1b 7 = .ok mv n' ∧ absV mv = .str [66] :=
+  (eval_refines_spec_partial rel1 xa1b (by decide) 7).1 (.str [66]) (by rfl)
+example : ∃ mv n', evalE m1 xnq 7 = .ok mv n' ∧ absV mv = .null :=
+  (eval_refines_spec_partial rel1 xnq (by decide) 7).1 .null (by rfl)
+example : ∃ mv n', evalE m1 xaeb 7 = .ok mv n' ∧ absV mv = .str [66] :=
+  (eval_refines_spec_partial rel1 xaeb (by decide) 7).1 (.str [66]) (by rfl)
+example : evalE m1 (.dataRef 0 [120] (.cons (.key 0 false [122, 122]) (.cons (.key 0 false [121]) .nil))) 7 = .err :=
+  (eval_refines_spec_partial rel1 _ (by decide) 7).2 (by rfl)
+example : evalE m1 (.dataRef 0 [120] (.cons (.key 0 false [97]) (.cons (.key 0 false [107]) .nil))) 7 = .err :=
+  (eval_refines_spec_partial rel1 _ (by decide) 7).2 (by rfl)
 
 end SoyVerif.Props.C01
